@@ -13,12 +13,33 @@ import (
 )
 
 const (
-	verifRoot   = "/verif"
-	harnessDir  = "/verif/harness"
-	repoDir     = "/repo"
-	workDir     = "/verif/.work"
-	harnessPkg  = "verifharness/props"
+	repoDir    = "/repo"
+	harnessPkg = "verifharness/props"
 )
+
+// The root of the verification tree: $VERIF_ROOT, else the directory above
+// the executable's bin/ (so a snapshot of /verif built elsewhere is
+// self-contained), else /verif.
+var (
+	verifRoot  = findRoot()
+	harnessDir = filepath.Join(verifRoot, "harness")
+	workDir    = filepath.Join(verifRoot, ".work")
+)
+
+func findRoot() string {
+	if r := os.Getenv("VERIF_ROOT"); r != "" {
+		return r
+	}
+	if exe, err := os.Executable(); err == nil {
+		if exe, err = filepath.EvalSymlinks(exe); err == nil {
+			root := filepath.Dir(filepath.Dir(exe))
+			if _, err := os.Stat(filepath.Join(root, "harness", "registry.json")); err == nil {
+				return root
+			}
+		}
+	}
+	return "/verif"
+}
 
 func usage() {
 	fmt.Fprintln(os.Stderr, `usage:
